@@ -197,7 +197,8 @@ def histories(draw, mode, max_steps=5, max_dims=4, max_len=3):
             sel, syntax = {}, "ellipsis"
         else:
             sel = draw(selectors(U, tl, allow_list=allow_list))
-            syntax = draw(st.sampled_from(["dict_letter", "dict_name", "dict_mixed"] + (["ellipsis"] if not sel else [])))
+            tuple_ok = sel and all(v["kind"] in ("single", "list") and (v["kind"] == "single" or len(v["items"]) >= 2) for v in sel.values())
+            syntax = draw(st.sampled_from(["dict_letter", "dict_name", "dict_mixed"] + (["ellipsis"] if not sel else []) + (["tuple", "tuple_mixed", "tuple_mixed"] if tuple_ok else [])))
         rl, ritems, orig = region(U, tl, sel)
         rhs = {"kind": kind}
         if kind == "array_other_len":
